@@ -73,7 +73,9 @@ func (db *DB) openMemTables(opt Options) error {
 			flags = os.O_RDONLY
 		}
 		mt, err := db.openMemTable(fid, flags)
-		if err != nil {
+		// z.NewFile: a zero-length file, left by a crash between the creation of the file and its
+		// sizing, or between the truncation and the unlink of a flushed WAL: an empty memtable.
+		if err != nil && err != z.NewFile {
 			return y.Wrapf(err, "while opening fid: %d", fid)
 		}
 		// If this memtable is empty we don't need to add it. This is a
